@@ -853,6 +853,117 @@ Proof.
   destruct Ho as [[old ->]| ->]; reflexivity.
 Qed.
 
+(* ---- to_rmod is injective ---- *)
+Lemma map_inj {A B} (f : A -> B) : (forall x y, f x = f y -> x = y) ->
+  forall l l', map f l = map f l' -> l = l'.
+Proof.
+  intros Hf. induction l as [|x l IH]; intros [|y l'] E; cbn in E; try discriminate; auto.
+  injection E as E1 E2. f_equal; auto.
+Qed.
+
+Lemma body_rose_inj nf nf' : body_rose nf = body_rose nf' -> nf = nf'.
+Proof.
+  destruct nf as [n [a c]], nf' as [n' [a' c']]. unfold body_rose. cbn [fst snd f_args f_cards].
+  intros [= -> -> E]. apply (map_inj to_rose to_rose_inj) in E. subst. reflexivity.
+Qed.
+
+Theorem to_rmod_inj m m' : to_rmod m = to_rmod m' -> m = m'.
+Proof.
+  destruct m as [s f i], m' as [s' f' i']. unfold to_rmod. cbn [m_submodules m_functions m_imports].
+  intros [= -> E ->]. apply (map_inj body_rose body_rose_inj) in E. subst. reflexivity.
+Qed.
+
+(* ---- law of the specification: replacing back restores the tree ---- *)
+Lemma rmodify_replace_back p : forall d r r' x old,
+  rmodify p d (node_replace x) r = SOk (r', old) -> rmodify p d (node_replace old) r' = SOk (r, x).
+Proof.
+  induction p as [|i p IH]; intros d r r' x old; cbn [rmodify].
+  - unfold node_replace. intros [= <- <-]. reflexivity.
+  - destruct r as [l kids]. cbn [rkids rlabel].
+    destruct (nth_error kids i) as [ch|] eqn:E; [|discriminate].
+    destruct (rmodify p (S d) (node_replace x) ch) as [[ch' o]|] eqn:E2; [|discriminate].
+    intros [= <- <-]. cbn [rkids rlabel].
+    rewrite nth_error_upd_same by (eapply nth_error_Some_lt; eauto).
+    rewrite (IH _ _ _ _ _ E2), upd_upd, (upd_nth_error _ _ _ E). reflexivity.
+Qed.
+
+Theorem spec_replace_back M idx x M' old :
+  spec_replace M idx x = SpOk (M', old) -> spec_replace M' idx old = SpOk (M, x).
+Proof.
+  unfold spec_replace, spec_edit. destruct M as [subs fns imps]. cbn [rm_fns].
+  destruct (nth_error fns (ci_function idx)) as [body|] eqn:E; [|discriminate].
+  destruct (ci_indices idx) as [|b path] eqn:EI; [discriminate|].
+  destruct (rmodify (b :: path) 0 (node_replace x) body) as [[body' o]|] eqn:E2; [|discriminate].
+  intros [= <- <-]. unfold rset_fn. cbn [rm_fns rm_subs rm_imports].
+  rewrite nth_error_upd_same by (eapply nth_error_Some_lt; eauto).
+  rewrite (rmodify_replace_back _ _ _ _ _ _ E2). unfold rset_fn. cbn [rm_fns rm_subs rm_imports].
+  rewrite upd_upd, (upd_nth_error _ _ _ E). reflexivity.
+Qed.
+
+(* ---- ... transferred to the model ---- *)
+Theorem replace_back m idx x m1 old :
+  replace_card m idx x = ROk (m1, old) -> replace_card m1 idx old = ROk (m, x).
+Proof.
+  intros E. pose proof (replace_card_refines m idx x) as H. rewrite E in H.
+  apply spec_replace_back in H. pose proof (replace_card_refines m1 idx old) as H2.
+  destruct (replace_card m1 idx old) as [[m2 o2]|e|]; [|congruence|contradiction].
+  rewrite H in H2.
+  assert (Hm : to_rmod m = to_rmod m2) by congruence. assert (Hx : to_rose x = to_rose o2) by congruence.
+  apply to_rmod_inj in Hm. apply to_rose_inj in Hx. congruence.
+Qed.
+
+(* a swap that reports an error leaves the module as it was (the restore path included) *)
+Theorem swap_fail_unchanged m a b m' e :
+  swap_cards m a b = (m', SwErr e) -> m' = m.
+Proof.
+  unfold swap_cards. destruct (if ci_ltb a b then (b, a) else (a, b)) as [lhs rhs].
+  destruct (replace_card m rhs CScalarNil) as [[m1 rc]|e1|] eqn:E1; [|intros [= <- _]; reflexivity|discriminate].
+  destruct (get_card m1 lhs) as [c|e2|]; [| |discriminate].
+  - destruct (replace_card m1 lhs rc) as [[m2 lc]|?|]; try discriminate.
+    destruct (replace_card m2 rhs lc) as [[m3 ?]|?|]; discriminate.
+  - rewrite (replace_back _ _ _ _ _ E1). intros [= <- _]. reflexivity.
+Qed.
+
+(* every call that reports an error leaves the module unchanged *)
+Theorem failed_edit_unchanged m o :
+  match snd (step m o) with
+  | ObErr _ | ObSwapErr _ | ObChildErr _ => fst (step m o) = m
+  | _ => True
+  end.
+Proof.
+  destruct o; cbn [step fst snd]; try exact I.
+  - destruct (get_card m idx); exact I || reflexivity.
+  - destruct (get_card_mut m idx); exact I || reflexivity.
+  - destruct (insert_card m idx c) as [[m' []]|e|]; exact I || reflexivity.
+  - destruct (remove_card m idx) as [[m' x]|e|]; exact I || reflexivity.
+  - destruct (replace_card m idx c) as [[m' x]|e|]; exact I || reflexivity.
+  - destruct (swap_cards m a b) as [m' [| e |]] eqn:E; cbn [fst snd]; try exact I.
+    eapply swap_fail_unchanged; eauto.
+  - destruct (get_card_mut m idx); exact I || reflexivity.
+  - pose proof (step_refines_replace_child m idx i c) as R. cbn [step] in R.
+    match goal with |- context [with_card_mut m idx ?k] => destruct (with_card_mut m idx k) as [[m' o]|e|] eqn:E end;
+      cbn [fst snd] in *; try reflexivity; try exact I.
+    destruct o; try exact I.
+    all: cbn [spec_step abs_obs] in R.
+    all: destruct (spec_edit (to_rmod m) idx (ci_indices idx) (node_replace_child (to_rose c) i)) as [[M' [old|]]|e'] eqn:ES;
+      try discriminate.
+    { apply to_rmod_inj. pose proof (f_equal fst R) as R1. cbn [fst] in R1. congruence. }
+    assert (R' : M' = to_rmod m') by (pose proof (f_equal fst R) as R1; exact R1). clear R. apply to_rmod_inj. rewrite <- R'.
+    (* the specification leaves the tree alone when the child does not exist *)
+    clear - ES. unfold spec_edit in ES. destruct (to_rmod m) as [subs fns imps]. cbn [rm_fns] in *.
+    destruct (nth_error fns (ci_function idx)) as [body|] eqn:E; [|discriminate].
+    destruct (ci_indices idx) as [|b path]; [discriminate|].
+    destruct (rmodify (b :: path) 0 (node_replace_child (to_rose c) i) body) as [[body' o]|] eqn:E2; [|discriminate].
+    injection ES as <- ->. unfold rset_fn. cbn [rm_fns rm_subs rm_imports]. f_equal.
+    assert (G : forall p d r r', rmodify p d (node_replace_child (to_rose c) i) r = SOk (r', None) -> r' = r).
+    { clear. induction p as [|j p IH]; intros d r r'; cbn [rmodify].
+      - destruct r as [l kids]. unfold node_replace_child. destruct (nth_error kids i); intros [= <-]; reflexivity.
+      - destruct r as [l kids]. cbn [rkids rlabel]. destruct (nth_error kids j) as [ch|] eqn:E; [|discriminate].
+        destruct (rmodify p (S d) (node_replace_child (to_rose c) i) ch) as [[ch' o]|] eqn:E2; [|discriminate].
+        intros [= <- ->]. apply IH in E2. subst. rewrite (upd_nth_error _ _ _ E). reflexivity. }
+    apply G in E2. subst. apply upd_nth_error. exact E.
+Qed.
+
 (* ---- witnesses for the known-finding classes ---- *)
 
 Definition wit_module : module :=
